@@ -422,6 +422,51 @@ theorem C07_Wea_discontinuous_counterexample (w : WeaC) (h : w.wfDisc) (hv : w.v
   have := congrArg WeaC.validated (Option.some.inj e)
   simp [hv] at this
 
+/-! #### Round 5: the reader keeps what the writer wrote, in the order written
+
+The class of change behind seeded C07-15: a reader that NORMALISES (sorts the steps, validates them
+against a period, removes duplicates).  In the model the Wea reader takes the datetime arrays as
+listed; `WeaC.wfScattered` puts no condition on the order of the steps. -/
+
+/-- A Wea over unflagged discontinuous collections whose steps - in ANY order: December before January,
+    the order the hours were picked in, descending - do not fill the period spanned by the first and the
+    last step reads back equal: location, both value lists, the datetimes as listed, timestep, year
+    kind, the annual header.  (Full law; no hypothesis relates the order of the steps to the calendar.) -/
+theorem C07_Wea_steps_in_any_order : Law WeaC.enc WeaC.rd.dec WeaC.wfScattered := WeaC.law_scattered
+
+/-- … and writes the same dictionary again. -/
+theorem C07_Wea_steps_in_any_order_fixed (w : WeaC) (h : w.wfScattered) :
+    (WeaC.rd.dec (jsonRT w.enc)).map WeaC.enc = some w.enc := Law.fixed WeaC.law_scattered w h
+
+/-- The reader neither sorts nor drops: the datetimes and the two value lists that come back are the
+    lists that were written, element by element. -/
+theorem C07_Wea_reader_keeps_order (w : WeaC) (h : w.wfScattered) :
+    (WeaC.rd.dec (jsonRT w.enc)).map (fun r => (r.times, r.dni, r.dhi)) = some (w.times, w.dni, w.dhi) := by
+  rw [WeaC.law_scattered w h]; rfl
+
+/-- The dictionary of a Wea does not carry the header period: the same steps under another header
+    period (every second step of a period, the sun-up hours of a wrapping period) write the same
+    dictionary and therefore read back with the annual header, not equal to the Wea written.
+    Finding C07-wea-dict-rederives-period. -/
+theorem C07_Wea_period_rederived_counterexample (w : WeaC) (h : w.wfScattered) (ap' : AP)
+    (h1 : ap'.ts = w.ap.ts) (h2 : ap'.leap = w.ap.leap) (hne : ap' ≠ w.ap) :
+    WeaC.rd.dec (jsonRT ({ w with ap := ap' } : WeaC).enc) ≠ some { w with ap := ap' } := by
+  have henc : ({ w with ap := ap' } : WeaC).enc = w.enc := by
+    obtain ⟨_, _, _, _, ⟨l, _, _, ht, _⟩, _⟩ := h
+    simp [WeaC.enc, WeaC.isAnnual, ht, h1, h2]
+  rw [henc, WeaC.law_scattered w h]
+  intro e
+  exact hne (congrArg WeaC.ap (Option.some.inj e)).symm
+
+/-- Non-vacuity: 30 December, then 2 January, then 1 January. -/
+example : WeaC.wfScattered ⟨⟨"Boston", "-", "USA", .flt 0x40452F5C28F5C28F, .int 0, .flt 0xC014000000000000,
+    .flt 0, none, .str "TMY3"⟩, AP.annual 1 false, [.int 1, .int 2, .int 3], [.int 4, .int 5, .int 6],
+    some [⟨12, 30, 5, 0, false⟩, ⟨1, 2, 9, 0, false⟩, ⟨1, 1, 6, 0, false⟩], false⟩ := by
+  refine ⟨⟨by decide, by decide, by decide, Or.inr ⟨_, rfl, by decide +kernel, by decide +kernel⟩,
+    Or.inl rfl, ⟨_, rfl, by decide +kernel⟩, ⟨_, rfl, Or.inr rfl⟩, by simp, by simp, by simp [PyVal.isTag]⟩,
+    rfl, by decide, rfl, ⟨_, _, _, rfl, rfl, rfl, by decide, ⟨⟨12, 30, 5, 1, 1, 6, 1, false⟩, by decide +kernel,
+      by decide +kernel⟩, rfl, rfl⟩, by simp [jsonRT], by simp [jsonRT]⟩
+
 /-! ### text forms -/
 
 /-- CSV header strings, token level: a header with a default-named standard data type and text
